@@ -94,6 +94,8 @@ def detect_in(sid, wt, props):
         meta["detected_by"][p] = {"exit": rc, "violations": sigs[:6], "wall_s": round(time.time() - t, 1),
                                   "tier": "quick", "seed": int(os.environ.get("VERIF_SEED", "1")), "via": "VERIF_REPO=" + wt}
         print(sid, p, "exit", rc, sigs[:4])
+    if os.environ.get("SEED_NO_RECORD"):
+        return  # a sweep at another seed: meta.json keeps the seed-1 record
     with open(os.path.join(dst, "meta.json"), "w") as f:
         json.dump(meta, f, indent=1)
 
